@@ -67,6 +67,7 @@ Lemma pres_q_excl : forall s c s' l, Inv s -> step s c = Some (s', l) ->
 Proof.
   intros s c s' l I H. pose proof (i_q_excl s I) as QX.
   pose proof (i_reqs_q s I) as RQ; pose proof (no_active_of_tokio s I) as NA; pose proof (i_tok_sd s I) as TS.
+  pose proof (i_appx s I) as AX0.
   destruct c as [e|w e|]; simpl in H.
   - destruct (i_mret s I) as [MR|MR]; io_cases H; close3 ltac:(cheap_qx QX).
   - pose proof (i_act_excl s I w) as AX; pose proof (no_other_active s w I) as NO.
